@@ -174,7 +174,7 @@ pub fn run(args: &Args) -> i32 {
             }
         }
     }
-    let n = args.vol(150, 6000);
+    let n = args.vol(500, 20_000);
     for _ in 0..n {
         let len = r.size(0, if args.thorough() { 200 * 1024 } else { 80 * 1024 });
         let estimate = match r.below(4) {
